@@ -85,13 +85,15 @@ def run(tier, seed, replay=None):
             raise Infra("vdrv handoff failed rc=%s: %s" % (rc, err[-2000:]))
         rows = vlib.read_ndjson(trace)
         rt = vlib.tlc(sc, "HandoffTrace", "HandoffTrace.cfg", workers=1, timeout=1800)
+        if len(rows) < len(cases) and not any(x.get("hung") for x in rows):
+            raise Infra("handoff driver stopped after %d of %d cases" % (len(rows), len(cases)))
         if rt.rc != 0 or rt.depth - 1 != len(rows):
             raise Infra("TLC failed on the handoff trace (rc=%s, judged %d of %d):\n%s" % (rt.rc, rt.depth - 1, len(rows), rt.out[-2000:]))
         byid = {c["id"]: c for c in cases}
         for ln in [int(x) for x in re.findall(r'<<"REJECT", (\d+)>>', rt.out)]:
             ev = rows[ln - 1]
             c = byid[ev["case"]]
-            sym = "abort" if ev["abort"] or ev["panic"] else ("announced-values" if (ev["n_reported"] != ev["n"] or not ev["runid_ok"] or ev["offset_used"] != ev["announced_offset"] or not ev["full"])
+            sym = "hang" if ev.get("hung") else "abort" if ev["abort"] or ev["panic"] else ("announced-values" if (ev["n_reported"] != ev["n"] or not ev["runid_ok"] or ev["offset_used"] != ev["announced_offset"] or not ev["full"])
                                                                else ("file" if ev["mode"] == "dump" and (ev["file_diff"] != -1 or ev["file_len"] != ev["n"]) else "bytes"))
             verdict.violation({"kind": "handoff", "mode": ev["mode"], "symptom": sym},
                               "hand-off differs from what the source sent: %s" % {k: v for k, v in ev.items() if k not in ("seq",)},
